@@ -45,6 +45,8 @@ module Nat :
   val eqb : nat -> nat -> bool
 
   val leb : nat -> nat -> bool
+
+  val ltb : nat -> nat -> bool
  end
 
 module Pos :
@@ -62,6 +64,8 @@ module Pos :
   val mul : positive -> positive -> positive
 
   val iter : ('a1 -> 'a1) -> 'a1 -> positive -> 'a1
+
+  val pow : positive -> positive -> positive
 
   val size : positive -> positive
 
@@ -96,7 +100,13 @@ module N :
  sig
   val succ_pos : n -> positive
 
+  val compare : n -> n -> comparison
+
   val eqb : n -> n -> bool
+
+  val ltb : n -> n -> bool
+
+  val pow : n -> n -> n
 
   val size : n -> n
 
@@ -434,3 +444,7 @@ val c2r_go : z -> z -> z list -> z list
 val chars_to_ranges : bool -> z list -> z list
 
 val ranges_cover : z list -> z -> bool
+
+val set_bounded_b : nat -> sset -> bool
+
+val nfa_bounded : nfa -> bool
